@@ -445,6 +445,21 @@ def rule_orderins(ctx) -> None:
             ctx.check(have == need, "C03.ORDERINS", f"{ck.qual}/injective", ck.loc(r),
                       "the canonical key carries (kind, id, attr) as separate tuple components: distinct targets never collide",
                       f"canonical key tuple lacks separate components {sorted(need - have)}")
+            # canonical TARGET ORDER is the order of the joined identity "kind:id:attr" (what t4.jsonl / the goldens list):
+            # the joined string has to lead the key, the components only break its collisions
+            first = inl.elts[0] if inl.elts else None
+            parts = []
+            if isinstance(first, ast.JoinedStr):
+                for v in first.values:
+                    if isinstance(v, ast.FormattedValue):
+                        e2 = strip_wrappers(v.value, names=("str",))
+                        parts.append(e2.attr if isinstance(e2, ast.Attribute) else "?")
+                    elif isinstance(v, ast.Constant):
+                        parts.append(str(v.value))
+            ctx.check(parts == ["target_kind", ":", "target_id", ":", "attr"], "C03.ORDERINS", f"{ck.qual}/order-is-joined-identity", ck.loc(r),
+                      "the key sorts by the joined identity `kind:id:attr` first (canonical target order), then by its components",
+                      f"the canonical key no longer leads with the joined identity `kind:id:attr` (first component: `{src(first)[:40] if first is not None else ''}`): "
+                      "targets whose id is a prefix of another id ('n:a' / 'n:a1') change places, so the approved list leaves canonical order and the churn tie-break keeps other targets")
         else:
             joined = isinstance(inl, ast.JoinedStr) or (isinstance(inl, ast.Call) and call_tail(inl) == "join")
             ctx.check(not joined and False, "C03.ORDERINS", f"{ck.qual}/injective", ck.loc(r), "",
